@@ -2,7 +2,7 @@ import json, random, sys, copy
 import jsonschema
 from jsonschema import Draft7Validator, Draft4Validator
 
-seed=int(sys.argv[1]); N=int(sys.argv[2]); out=sys.argv[3]; EXT=len(sys.argv)>4
+seed=int(sys.argv[1]); N=int(sys.argv[2]); out=sys.argv[3]; EXT=len(sys.argv)>4 and sys.argv[4]=="ext"; TREE=len(sys.argv)>4 and sys.argv[4]=="tree"
 R=random.Random(seed)
 
 def num_schema(ty, draft4):
@@ -78,7 +78,7 @@ def prop_schema(depth, draft4, in_array=False, defs=None):
     elif k=="arr": s=arr_schema(depth,draft4)
     elif k=="comp": return comp_schema(depth,draft4,defs)
     else: s=obj_schema(depth,draft4,defs)
-    if EXT and k in("int","num","str","bool") and R.random()<0.15 and not in_array:
+    if (EXT or TREE) and k in("int","num","str","bool") and R.random()<0.15 and not in_array:
         V=CUR['V'] or Draft7Validator
         cands={"int":[0,1,2,5,8],"num":[0.5,1,2,5.5],"str":["a","ab","abc","z"],"bool":[True,False]}[k]
         ok=[c for c in cands if Draft7Validator({kk:vv for kk,vv in s.items() if kk not in("exclusiveMinimum","exclusiveMaximum") or not isinstance(vv,bool)}).is_valid(c)]
@@ -148,7 +148,7 @@ cases=[]
 for i in range(N):
     draft4=R.random()<0.3
     defs={}
-    for dn in R.sample(["Thing","Pos","Name","Item"],R.randint(0,2)):
+    for dn in ([] if TREE else R.sample(["Thing","Pos","Name","Item"],R.randint(0,2))):
         defs[dn]=prop_schema(1,draft4)
     root=obj_schema(0,draft4,defs or None)
     root["$id"]="urn:c%d"%i
